@@ -982,7 +982,7 @@ func (x *Exec) appendBuiltin(st *State, fr *Frame, c *callCtx) {
 	x.finish(st, fr, c, VSlice{Nil: nilT, Arr: obj, Len: na.Len, Typ: s0.Typ})
 }
 
-var purePackages = map[string]bool{"strings": true, "strconv": true, "path": true, "path/filepath": true, "unicode": true, "unicode/utf8": true, "net/url": false}
+var purePackages = map[string]bool{"strings": true, "strconv": true, "path": true, "path/filepath": true, "unicode": true, "unicode/utf8": true, "net/url": true}
 
 // pureFallback models a function of a side-effect free standard package whose parameters and result are
 // scalars (string, integer, bool) as an uninterpreted function of its arguments: equal arguments give equal
